@@ -473,6 +473,18 @@ impl BasicTypeColumn {
             EncodingType::Str => {
                 BasicTypeColumn::String(data.cast_ref_str().iter().map(|s| s.to_string()).collect())
             }
+            // I64 and F64 data may carry NULL as a reserved marker value (e.g. aggregates without input)
+            EncodingType::I64 if data.cast_ref_i64().contains(&I64_NULL) => {
+                BasicTypeColumn::Mixed((0..data.len()).map(|i| data.get_raw(i)).collect())
+            }
+            EncodingType::F64
+                if data
+                    .cast_ref_f64()
+                    .iter()
+                    .any(|f| f.to_bits() == F64_NULL.to_bits()) =>
+            {
+                BasicTypeColumn::Mixed((0..data.len()).map(|i| data.get_raw(i)).collect())
+            }
             EncodingType::I64 => BasicTypeColumn::Int(data.cast_ref_i64().to_vec()),
             EncodingType::U8 | EncodingType::Bitvec => {
                 BasicTypeColumn::Int(data.cast_ref_u8().iter().map(|&i| i as i64).collect())
